@@ -15,24 +15,17 @@
 package main
 
 import (
-	"context"
 	"encoding/json"
 	"flag"
 	"fmt"
-	"log/slog"
-	"math"
 	"os"
 	"os/exec"
 	"path/filepath"
-	"sort"
 	"strings"
-	"time"
 
 	"github.com/cespare/xxhash/v2"
 
 	"github.com/prometheus/prometheus/model/labels"
-	"github.com/prometheus/prometheus/storage"
-	"github.com/prometheus/prometheus/tsdb"
 
 	"verif/harness/internal/gallina"
 	"verif/harness/internal/gen"
@@ -72,10 +65,60 @@ func refBytes(s lset) []byte {
 	return b
 }
 
+// gBytes prints a byte string as list N; runs of >= 6 equal bytes become `rp c n`
+// (Coq's term construction costs ~0.1 ms per list element, so long strings are generated as
+// runs and printed run-length encoded).
+func gBytes(b []byte) string {
+	var parts []string
+	var lit []string
+	flush := func() {
+		if len(lit) > 0 {
+			parts = append(parts, "["+strings.Join(lit, "; ")+"]%N")
+			lit = nil
+		}
+	}
+	for i := 0; i < len(b); {
+		j := i
+		for j < len(b) && b[j] == b[i] {
+			j++
+		}
+		if j-i >= 6 {
+			flush()
+			parts = append(parts, fmt.Sprintf("rp %d %d", b[i], j-i))
+		} else {
+			for k := i; k < j; k++ {
+				lit = append(lit, fmt.Sprint(b[k]))
+			}
+		}
+		i = j
+	}
+	flush()
+	if len(parts) == 0 {
+		return "([] : list N)"
+	}
+	return "(" + strings.Join(parts, " ++ ") + " : list N)"
+}
+
+// runs returns n bytes made of runs of one lower-case letter each (20..200 long).
+func runs(r *gen.Rand, n int) []byte {
+	var b []byte
+	for len(b) < n {
+		l := 20 + r.Intn(181)
+		if l > n-len(b) {
+			l = n - len(b)
+		}
+		c := byte('a' + r.Intn(26))
+		for i := 0; i < l; i++ {
+			b = append(b, c)
+		}
+	}
+	return b
+}
+
 func gLabels(s lset) string {
 	it := make([]string, len(s))
 	for i, p := range s {
-		it[i] = "mkL " + gallina.Bytes(p[0]) + " " + gallina.Bytes(p[1])
+		it[i] = "mkL " + gBytes(p[0]) + " " + gBytes(p[1])
 	}
 	if len(it) == 0 {
 		return "([] : labels)"
@@ -218,7 +261,7 @@ func genHashSet(r *gen.Rand, tier string) (lset, string) {
 		names := uniqueNames(r, k)
 		var s lset
 		for _, n := range names {
-			s = append(s, lpair{n, randBytes(r, r.Intn(30), 0)})
+			s = append(s, lpair{n, randBytes(r, r.Intn(8), 0)})
 		}
 		sorted := asSet(mkLabels(s))
 		// make the total exactly 1024+d by stretching one value
@@ -230,16 +273,16 @@ func genHashSet(r *gen.Rand, tier string) (lset, string) {
 		}
 		want := 1024 + d - cur
 		if want > 0 {
-			sorted[j][1] = append(sorted[j][1], randBytes(r, want, 0)...)
+			sorted[j][1] = append(sorted[j][1], runs(r, want)...)
 		}
 		return sorted, fmt.Sprintf("boundary%+d", d)
 	case 6: // one huge first entry: overflow with an empty buffer
 		var s lset
 		big := 1020 + r.Intn(300)
-		s = append(s, lpair{[]byte("__name__"), randBytes(r, big, 0)})
+		s = append(s, lpair{[]byte("__name__"), runs(r, big)})
 		for _, n := range uniqueNames(r, r.Intn(4)) {
 			if string(n) != "__name__" {
-				s = append(s, lpair{n, randBytes(r, r.Intn(300), 1)})
+				s = append(s, lpair{n, runs(r, r.Intn(300))})
 			}
 		}
 		return s, "big-first"
@@ -247,7 +290,7 @@ func genHashSet(r *gen.Rand, tier string) (lset, string) {
 		k := 8 + r.Intn(20)
 		var s lset
 		for _, n := range uniqueNames(r, k) {
-			s = append(s, lpair{n, randBytes(r, 40+r.Intn(120), 0)})
+			s = append(s, lpair{n, runs(r, 40+r.Intn(120))})
 		}
 		return s, "overflow-mid"
 	case 9: // value lengths around the stringlabels size-encoding switch (255)
@@ -257,18 +300,18 @@ func genHashSet(r *gen.Rand, tier string) (lset, string) {
 			if i > 0 && r.Chance(1, 2) {
 				l = r.Intn(10)
 			}
-			s = append(s, lpair{n, randBytes(r, l, 0)})
+			s = append(s, lpair{n, runs(r, l)})
 		}
 		return s, "size255"
 	case 10: // long name
 		var s lset
-		s = append(s, lpair{randBytes(r, 250+r.Intn(900), 0), randBytes(r, r.Intn(600), 0)})
-		s = append(s, lpair{[]byte("zz"), randBytes(r, r.Intn(300), 0)})
+		s = append(s, lpair{runs(r, 250+r.Intn(900)), runs(r, r.Intn(600))})
+		s = append(s, lpair{[]byte("zz"), runs(r, r.Intn(300))})
 		return s, "long-name"
 	default:
 		if tier == "thorough" && r.Chance(1, 6) {
 			// a value longer than 65535 bytes: third size byte of the stringlabels encoding
-			return lset{{[]byte("__name__"), []byte("m")}, {[]byte("big"), randBytes(r, 65530+r.Intn(12), 0)}}, "size64k"
+			return lset{{[]byte("__name__"), []byte("m")}, {[]byte("big"), runs(r, 65530+r.Intn(12))}}, "size64k"
 		}
 		k := r.Intn(4)
 		var s lset
@@ -277,396 +320,6 @@ func genHashSet(r *gen.Rand, tier string) (lset, string) {
 		}
 		return s, "tiny"
 	}
-}
-
-// ---------------------------------------------------------------- select cases
-
-type seriesT struct {
-	set lset
-	ls  labels.Labels
-	key string
-}
-
-type oRes struct {
-	Idx []int  `json:"idx,omitempty"`
-	Err string `json:"err,omitempty"` // "", "disabled", "other"
-}
-
-func (o oRes) gallina() string {
-	switch o.Err {
-	case "":
-		v := make([]int64, len(o.Idx))
-		for i, x := range o.Idx {
-			v[i] = int64(x)
-		}
-		return "(OOk " + gallina.ListZ(v) + ")"
-	case "disabled":
-		return "OErrDisabled"
-	default:
-		return "OErrOther"
-	}
-}
-
-type srcT struct {
-	Kind    int   `json:"kind"`
-	Members []int `json:"members"`
-}
-
-type viewT struct {
-	Name      string   `json:"name"`
-	Sharding  bool     `json:"sharding"`
-	Srcs      []srcT   `json:"srcs"`
-	N         uint64   `json:"n"`
-	Matchers  string   `json:"matchers"`
-	API       string   `json:"api"`
-	Unsharded oRes     `json:"unsharded"`
-	Shards    []oRes   `json:"shards"`
-	OobIdx    []uint64 `json:"oob_idx,omitempty"`
-	Oob       []oRes   `json:"oob,omitempty"`
-}
-
-func (v viewT) gallina() string {
-	srcs := make([]string, len(v.Srcs))
-	for i, s := range v.Srcs {
-		m := make([]int64, len(s.Members))
-		for j, x := range s.Members {
-			m[j] = int64(x)
-		}
-		srcs[i] = fmt.Sprintf("mkSrc %d %s", s.Kind, gallina.ListZ(m))
-	}
-	sh := make([]string, len(v.Shards))
-	for i, o := range v.Shards {
-		sh[i] = o.gallina()
-	}
-	oob := make([]string, len(v.Oob))
-	for i, o := range v.Oob {
-		oob[i] = gallina.Pair(gallina.ZU(v.OobIdx[i]), o.gallina())
-	}
-	return fmt.Sprintf("mkView %s %s %s %s %s %s", gallina.Bool(v.Sharding), gallina.List(srcs), gallina.ZU(v.N),
-		v.Unsharded.gallina(), gallina.List(sh), gallina.List(oob))
-}
-
-type selector interface {
-	sel(hints *storage.SelectHints, sorted bool, ms []*labels.Matcher) ([]labels.Labels, error)
-	close()
-}
-
-type qSel struct{ q storage.Querier }
-
-func (s qSel) sel(h *storage.SelectHints, sorted bool, ms []*labels.Matcher) ([]labels.Labels, error) {
-	ss := s.q.Select(context.Background(), sorted, h, ms...)
-	var out []labels.Labels
-	for ss.Next() {
-		out = append(out, ss.At().Labels().Copy())
-	}
-	return out, ss.Err()
-}
-func (s qSel) close() { s.q.Close() }
-
-type cqSel struct{ q storage.ChunkQuerier }
-
-func (s cqSel) sel(h *storage.SelectHints, sorted bool, ms []*labels.Matcher) ([]labels.Labels, error) {
-	ss := s.q.Select(context.Background(), sorted, h, ms...)
-	var out []labels.Labels
-	for ss.Next() {
-		out = append(out, ss.At().Labels().Copy())
-	}
-	return out, ss.Err()
-}
-func (s cqSel) close() { s.q.Close() }
-
-const (
-	tMin = int64(0)
-	tMax = int64(100000)
-)
-
-func openDB(dir string, sharding bool) *tsdb.DB {
-	o := tsdb.DefaultOptions()
-	o.MinBlockDuration = 1000
-	o.MaxBlockDuration = 27000
-	o.RetentionDuration = 0
-	o.NoLockfile = true
-	o.StripeSize = 64
-	o.BlockReloadInterval = 24 * time.Hour
-	o.WALSegmentSize = 1 << 20
-	o.HeadChunksWriteBufferSize = 64 * 1024
-	o.EnableSharding = sharding
-	db, err := tsdb.Open(dir, slog.New(slog.DiscardHandler), nil, o, nil)
-	if err != nil {
-		panic(err)
-	}
-	db.DisableCompactions()
-	return db
-}
-
-func appendSeries(db *tsdb.DB, all []seriesT, members []int, t0 int64) {
-	app := db.Appender(context.Background())
-	for j, k := range members {
-		if _, err := app.Append(0, all[k].ls, t0+int64(j%7), float64(k)); err != nil {
-			panic(fmt.Sprintf("append %s: %v", all[k].ls, err))
-		}
-		if _, err := app.Append(0, all[k].ls, t0+10+int64(j%7), float64(k)+0.5); err != nil {
-			panic(err)
-		}
-	}
-	if err := app.Commit(); err != nil {
-		panic(err)
-	}
-}
-
-type selCtx struct {
-	r      *gen.Rand
-	all    []seriesT
-	byKey  map[string]int
-	ns     []uint64
-	mss    [][]*labels.Matcher
-	views  []viewT
-	nQuery int
-}
-
-func (c *selCtx) toRes(lss []labels.Labels, err error) oRes {
-	if err != nil {
-		if strings.Contains(err.Error(), "sharding is disabled") {
-			return oRes{Err: "disabled"}
-		}
-		return oRes{Err: "other:" + err.Error()}
-	}
-	o := oRes{Idx: []int{}}
-	for _, l := range lss {
-		k, ok := c.byKey[string(refBytes(asSet(l)))]
-		if !ok {
-			k = -1
-		}
-		o.Idx = append(o.Idx, k)
-	}
-	return o
-}
-
-// observe runs the unsharded query and all shard queries of one view for every n of the case.
-func (c *selCtx) observe(name string, sharding bool, srcs []srcT, mk func(api string) selector) {
-	for _, n := range c.ns {
-		r := c.r
-		api := "querier"
-		if r.Chance(1, 3) {
-			api = "chunkquerier"
-		}
-		ms := c.mss[r.Intn(len(c.mss))]
-		s := mk(api)
-		v := viewT{Name: name, Sharding: sharding, Srcs: srcs, N: n, API: api, Matchers: fmt.Sprint(ms)}
-		sorted := r.Bool()
-		var h0 *storage.SelectHints
-		if r.Bool() {
-			h0 = &storage.SelectHints{Start: tMin, End: tMax}
-		}
-		v.Unsharded = c.toRes(s.sel(h0, sorted, ms))
-		fn := ""
-		if api == "querier" && r.Chance(1, 4) {
-			fn = "series"
-		}
-		for i := uint64(0); i < n; i++ {
-			h := &storage.SelectHints{Start: tMin, End: tMax, ShardIndex: i, ShardCount: n, Func: fn}
-			v.Shards = append(v.Shards, c.toRes(s.sel(h, sorted, ms)))
-			c.nQuery++
-		}
-		for _, i := range []uint64{n, n + 1 + uint64(r.Intn(5)), math.MaxUint64} {
-			h := &storage.SelectHints{Start: tMin, End: tMax, ShardIndex: i, ShardCount: n}
-			v.OobIdx = append(v.OobIdx, i)
-			v.Oob = append(v.Oob, c.toRes(s.sel(h, sorted, ms)))
-		}
-		s.close()
-		c.views = append(c.views, v)
-	}
-}
-
-func dbSelector(db *tsdb.DB) func(string) selector {
-	return func(api string) selector {
-		if api == "chunkquerier" {
-			q, err := db.ChunkQuerier(tMin, tMax)
-			if err != nil {
-				panic(err)
-			}
-			return cqSel{q}
-		}
-		q, err := db.Querier(tMin, tMax)
-		if err != nil {
-			panic(err)
-		}
-		return qSel{q}
-	}
-}
-
-func readerSelector(b tsdb.BlockReader) func(string) selector {
-	return func(api string) selector {
-		if api == "chunkquerier" {
-			q, err := tsdb.NewBlockChunkQuerier(b, tMin, tMax)
-			if err != nil {
-				panic(err)
-			}
-			return cqSel{q}
-		}
-		q, err := tsdb.NewBlockQuerier(b, tMin, tMax)
-		if err != nil {
-			panic(err)
-		}
-		return qSel{q}
-	}
-}
-
-func genSeriesSet(r *gen.Rand, m int, big bool) []seriesT {
-	metrics := []string{"up", "http_requests_total", "node_cpu_seconds_total", "go_goroutines"}
-	jobs := []string{"api", "db", "web"}
-	seen := map[string]bool{}
-	var out []seriesT
-	for len(out) < m {
-		s := lset{{[]byte("__name__"), []byte(metrics[r.Intn(len(metrics))])}}
-		s = append(s, lpair{[]byte("job"), []byte(jobs[r.Intn(len(jobs))])})
-		if r.Chance(3, 4) {
-			s = append(s, lpair{[]byte("instance"), []byte(fmt.Sprintf("host-%d:9090", r.Intn(12)))})
-		}
-		if r.Chance(1, 3) {
-			s = append(s, lpair{[]byte("env"), []byte(gen.Pick(r, []string{"prod", "dev", "staging"}))})
-		}
-		if r.Chance(1, 4) {
-			s = append(s, lpair{[]byte("le"), []byte(gen.Pick(r, []string{"0.1", "1", "10", "+Inf"}))})
-		}
-		if r.Chance(1, 6) {
-			s = append(s, lpair{[]byte("path"), []byte("/é/" + string(randBytes(r, r.Intn(6), 0)))})
-		}
-		if big && r.Chance(1, 3) {
-			// a series whose serialisation exceeds 1 KB: StableHash takes the streaming path
-			s = append(s, lpair{[]byte("trace"), randBytes(r, 900+r.Intn(400), 0)})
-		}
-		ls := mkLabels(s)
-		set := asSet(ls)
-		key := string(refBytes(set))
-		if seen[key] {
-			continue
-		}
-		seen[key] = true
-		out = append(out, seriesT{set: set, ls: ls, key: key})
-	}
-	return out
-}
-
-func genMatchers(r *gen.Rand) [][]*labels.Matcher {
-	mss := [][]*labels.Matcher{
-		{labels.MustNewMatcher(labels.MatchRegexp, "__name__", ".+")},
-		{labels.MustNewMatcher(labels.MatchEqual, "", "")}, // AllPostingsKey
-	}
-	jobs := []string{"api", "db", "web"}
-	switch r.Intn(4) {
-	case 0:
-		mss = append(mss, []*labels.Matcher{labels.MustNewMatcher(labels.MatchEqual, "job", jobs[r.Intn(3)])})
-	case 1:
-		mss = append(mss, []*labels.Matcher{labels.MustNewMatcher(labels.MatchNotEqual, "job", jobs[r.Intn(3)]),
-			labels.MustNewMatcher(labels.MatchRegexp, "__name__", "up|http.*|go_.*")})
-	case 2:
-		mss = append(mss, []*labels.Matcher{labels.MustNewMatcher(labels.MatchRegexp, "instance", "host-[0-5]:9090"),
-			labels.MustNewMatcher(labels.MatchEqual, "env", "")})
-	default:
-		mss = append(mss, []*labels.Matcher{labels.MustNewMatcher(labels.MatchEqual, "__name__", "no_such_metric")})
-	}
-	return mss
-}
-
-func pickNs(r *gen.Rand, caseIdx int) []uint64 {
-	pool := []uint64{1, 2, 3, 4, 5, 7, 8, 16, 31, 32, 63, 64}
-	a := pool[(caseIdx)%len(pool)]
-	b := uint64(1 + r.Intn(64))
-	if a == b {
-		return []uint64{a}
-	}
-	return []uint64{a, b}
-}
-
-func perm(r *gen.Rand, n int) []int {
-	p := make([]int, n)
-	for i := range p {
-		p[i] = i
-	}
-	for i := n - 1; i > 0; i-- {
-		j := r.Intn(i + 1)
-		p[i], p[j] = p[j], p[i]
-	}
-	return p
-}
-
-// runSelCase builds the databases for one generated series set and returns the observed views.
-func runSelCase(r *gen.Rand, caseIdx int, tmp string) *selCtx {
-	big := r.Chance(1, 5)
-	m := 2 + r.Intn(30)
-	if big {
-		m = 2 + r.Intn(8)
-	}
-	all := genSeriesSet(r, m, big)
-	c := &selCtx{r: r, all: all, byKey: map[string]int{}, ns: pickNs(r, caseIdx), mss: genMatchers(r)}
-	for i, s := range all {
-		c.byKey[s.key] = i
-	}
-	// H1: the series that go to the block; H2: appended afterwards (overlaps H1, plus the rest)
-	order := perm(r, m)
-	cut := 1 + r.Intn(m)
-	h1 := order[:cut]
-	var h2 []int
-	for _, k := range order {
-		inH1 := false
-		for _, x := range h1 {
-			if x == k {
-				inH1 = true
-			}
-		}
-		if !inH1 || r.Chance(1, 2) {
-			h2 = append(h2, k)
-		}
-	}
-
-	dir, err := os.MkdirTemp(tmp, "db")
-	if err != nil {
-		panic(err)
-	}
-	defer os.RemoveAll(dir)
-	db := openDB(filepath.Join(dir, "a"), true)
-	appendSeries(db, all, h1, 100)
-	c.observe("head", true, []srcT{{0, h1}}, readerSelector(tsdb.NewRangeHead(db.Head(), tMin, tMax)))
-	if err := db.CompactHead(tsdb.NewRangeHead(db.Head(), 0, 999)); err != nil {
-		panic(err)
-	}
-	if len(db.Blocks()) != 1 {
-		panic("expected one block")
-	}
-	// block members in index order (sorted by labels)
-	bm := append([]int{}, h1...)
-	sort.Slice(bm, func(i, j int) bool { return labels.Compare(all[bm[i]].ls, all[bm[j]].ls) < 0 })
-	c.observe("block", true, []srcT{{2, bm}}, readerSelector(db.Blocks()[0]))
-	if len(h2) > 0 {
-		appendSeries(db, all, h2, 2000)
-		c.observe("head+block", true, []srcT{{0, h2}, {2, bm}}, dbSelector(db))
-		if err := db.Close(); err != nil {
-			panic(err)
-		}
-		db = openDB(filepath.Join(dir, "a"), true)
-		c.observe("replayed-head+block", true, []srcT{{1, h2}, {2, bm}}, dbSelector(db))
-		c.observe("replayed-head", true, []srcT{{1, h2}}, readerSelector(tsdb.NewRangeHead(db.Head(), tMin, tMax)))
-	}
-	if err := db.Close(); err != nil {
-		panic(err)
-	}
-	if r.Chance(1, 2) {
-		// the same series created in another order (other refs) in a fresh head
-		o2 := perm(r, m)
-		db2 := openDB(filepath.Join(dir, "b"), true)
-		appendSeries(db2, all, o2, 100)
-		c.observe("head-other-order", true, []srcT{{0, o2}}, dbSelector(db2))
-		db2.Close()
-	}
-	if r.Chance(1, 6) {
-		db3 := openDB(filepath.Join(dir, "c"), false)
-		appendSeries(db3, all, h1, 100)
-		c.ns = c.ns[:1]
-		c.observe("head-sharding-disabled", false, []srcT{{0, h1}}, dbSelector(db3))
-		db3.Close()
-	}
-	return c
 }
 
 // ---------------------------------------------------------------- main
@@ -680,13 +333,6 @@ type hashDesc struct {
 	Obs    []int64  `json:"obs"`
 	Shape  string   `json:"shape"`
 	Corpus string   `json:"corpus,omitempty"`
-}
-
-type selDesc struct {
-	Kind   string   `json:"kind"`
-	Series []string `json:"series"`
-	Views  []viewT  `json:"views"`
-	Shape  string   `json:"shape"`
 }
 
 func quoteSet(s lset) []string {
@@ -711,8 +357,8 @@ func main() {
 		return
 	}
 	meta := gallina.NewMeta("C18", f.Seed, f.Tier)
-	meta.Rule = "hash cases: corpus + seeded label sets in classes (small, raw bytes incl. 0xff/0x00, total size 1024+d for d in -3..3, first entry > 1 KB, overflow mid-way, value lengths 253..257, long names, 64 KB value in thorough); non-trivial = at least one label, distinct by reference serialisation. select cases: seeded series sets (2..31 series, some with > 1 KB label sets) x two shard counts (one from {1,2,3,4,5,7,8,16,31,32,63,64} by case index, one uniform 1..64) x views (head, block, head+block, replayed head+block, replayed head, head in another creation order, sharding disabled); non-trivial = a view with n >= 2 whose unsharded result has >= 2 series, counted per distinct (series set, view, n)"
-	cf := &gallina.CaseFile{Dir: f.Out, Type: "case", PerShard: 150,
+	meta.Rule = "hash cases: corpus + seeded label sets in classes (small, raw bytes incl. 0xff/0x00, total size 1024+d for d in -3..3, first entry > 1 KB, overflow mid-way, value lengths 253..257, long names, 64 KB value in thorough); non-trivial = at least one label, distinct by reference serialisation. select cases: seeded series sets (2..24 series, some with > 1 KB label sets) x two shard counts (one from {1,2,3,4,5,7,8,16,31,32,63,64} by case index, one uniform 1..64) x views (head, block, head+block, replayed head+block, replayed head, head in another creation order, sharding disabled); non-trivial = a view with n >= 2 whose unsharded result has >= 2 series, counted per distinct (series set, view, n)"
+	cf := &gallina.CaseFile{Dir: f.Out, Type: "case", PerShard: 90,
 		Preamble: "From Coq Require Import List NArith ZArith.\nFrom Verif Require Import lib.Bytes model.Sharding corr.CorrC18.\nImport ListNotations.\nOpen Scope Z_scope.\n",
 		Footer:   gallina.StdFooter}
 	tmp, err := os.MkdirTemp(f.Out, "scratch")
@@ -755,7 +401,7 @@ func main() {
 	for _, c := range corpus {
 		hcs = append(hcs, hc{asSet(mkLabels(c.s)), "corpus", c.name})
 	}
-	nh := f.Count(220, 3000)
+	nh := f.Count(130, 1500)
 	for i := 0; i < nh; i++ {
 		r := gen.Fork(f.Seed, i)
 		s, class := genHashSet(r, f.Tier)
@@ -782,8 +428,8 @@ func main() {
 			obsS[slot[v]] = gallina.ZU(hs[i])
 		}
 		sl := "None"
-		if d, ok := slData(ls); ok {
-			sl = gallina.Some(gallina.Bytes(d))
+		if d, ok := slData(ls); ok && (h.corpus != "" || i%2 == 0) {
+			sl = gallina.Some(gBytes(d))
 		}
 		shape := "hash-" + h.class
 		for _, o := range obs {
@@ -791,7 +437,7 @@ func main() {
 				shape = "hash-variant-differs"
 			}
 		}
-		cf.Add(fmt.Sprintf("CHash %d %s %s %s %s %s", id, gLabels(h.set), gallina.Bytes(key), gallina.ZU(sum), gallina.List(obsS), sl))
+		cf.Add(fmt.Sprintf("CHash %d %s %s %s %s %s", id, gLabels(h.set), gBytes(key), gallina.ZU(sum), gallina.List(obsS), sl))
 		meta.Case(id, hashDesc{Kind: "hash", Class: h.class, Labels: quoteSet(h.set), KeyLen: len(key), Sum64: sum, Obs: obs, Shape: shape, Corpus: h.corpus})
 		meta.Hit("hash:" + h.class)
 		if len(key) >= 1024 {
@@ -807,52 +453,7 @@ func main() {
 		id++
 	}
 
-	// ---- select cases
-	ns := f.Count(60, 1200)
-	for i := 0; i < ns; i++ {
-		r := gen.Fork(f.Seed, 1_000_000+i)
-		c := runSelCase(r, i, tmp)
-		ser := make([]string, len(c.all))
-		var desc []string
-		for k, s := range c.all {
-			key := []byte(s.key)
-			ser[k] = fmt.Sprintf("mkS %s %s %s", gLabels(s.set), gallina.Bytes(key), gallina.ZU(xxhash.Sum64(key)))
-			desc = append(desc, s.ls.String())
-		}
-		vs := make([]string, len(c.views))
-		shape := "select"
-		for k, v := range c.views {
-			vs[k] = v.gallina()
-			meta.Hit("view:" + v.Name)
-			meta.Hit("api:" + v.API)
-			if v.Sharding && v.N >= 2 && len(v.Unsharded.Idx) >= 2 {
-				meta.Nontrivial++
-			}
-			nonEmpty := 0
-			for _, s := range v.Shards {
-				if len(s.Idx) > 0 {
-					nonEmpty++
-				}
-			}
-			switch {
-			case nonEmpty >= 2:
-				meta.Hit("shards-nonempty:>=2")
-			case nonEmpty == 1:
-				meta.Hit("shards-nonempty:1")
-			default:
-				meta.Hit("shards-nonempty:0")
-			}
-		}
-		for _, s := range c.all {
-			if len(s.key) >= 1024 {
-				meta.Hit("select:series>1KB")
-			}
-		}
-		cf.Add(fmt.Sprintf("CSel %d %s %s", id, gallina.List(ser), gallina.List(vs)))
-		meta.Case(id, selDesc{Kind: "select", Series: desc, Views: c.views, Shape: shape})
-		meta.Evaluations += c.nQuery
-		id++
-	}
+	id = selCases(f, meta, cf, tmp, id)
 	cf.Flush()
 	meta.Write(f.Out)
 }
